@@ -69,6 +69,7 @@ func writeEvidenceFile(b *build, a *agg, prop, tier string, seed uint64, violati
 		"real_components":         []string{"pkg/parser", "internal/scanner", "internal/php5", "internal/php7", "internal/position", "pkg/token", "pkg/position", "pkg/ast", "pkg/version", "pkg/errors", "pkg/conf", "pkg/visitor/printer", "pkg/visitor/dumper", "pkg/visitor/traverser", "pkg/visitor/nsresolver (all rebuilt from /repo's working tree, instrumented, -race)"},
 		"stub_components":         stubs(prop),
 		"cli_real_main":           cliState(b),
+		"block_size_knob":         knobState(b),
 		"instrumentation":         map[string]interface{}{"cli_redirected": b.instr.CLI, "knob": b.instr.Knob, "sync_rewritten": b.instr.SyncRewrite, "go_statements": b.instr.GoStmts, "channel_ops_wrapped": len(b.instr.ChanWrapped), "not_wrappable": b.instr.ChanOps},
 		"budget":                  map[string]interface{}{"runs_requested": cfg.runs, "wall_budget_s": cfg.budget.Seconds()},
 		"repo_head":               b.head,
@@ -118,4 +119,11 @@ func cliState(b *build) string {
 		return "skipped(" + b.cliSkipped + ")"
 	}
 	return "simulated (scenario C)"
+}
+
+func knobState(b *build) string {
+	if b.knobNote != "" {
+		return "unavailable (" + b.knobNote + ")"
+	}
+	return "DefaultBlockSize rewritten const -> var in the scratch copy and set per run"
 }
